@@ -29,6 +29,7 @@ func init() {
 			ruleBacktrackUndo(c, "R7")
 			ruleIndexGuardExact(c, "R8")
 			ruleDigitPredicates(c, "R9", "syntax.MatchDigit")
+			ruleCharClasses(c, "R9b", "syntax.MatchDigit", "syntax.MatchWord")
 			ruleRequestPathIsMatched(c, "R10")
 			ruleStrictValidated(c, "R11")
 			ruleIndexResetOnEveryPath(c, "R5c")
